@@ -118,7 +118,9 @@ def run_case(ctx):
                                    cap_single=60 if quick else 400, n_pairs=8 if quick else 60)
     keys = []
     for n, plan in enumerate(plans):
-        tree = os.path.join(ctx.scratch, f"t{n}")
+        # every tree takes the SAME path in turn (anything remembered per path is stale then)
+        tree = os.path.join(ctx.scratch, "tree")
+        shutil.rmtree(tree, ignore_errors=True)
         shutil.copytree(master, tree)
         descs = [d for d in (damage.apply(tree, m, op, args) for op, args in plan) if d]
         if plan and not descs:
